@@ -620,6 +620,39 @@ def plain_rows(rng, n, d, depth=2):
     return out
 
 
+LADDER = [",", ":", "∴", "=", "+", "⋅", "∧"]          # reference operators spread over the priority range
+
+
+def special_cased_ops(d):
+    """dictionary operators that the parser source mentions by name (string literals of canonicalize.rs): the ones whose
+    priority or form can be decided by context"""
+    src = C.read(os.path.join(C.REPO, "src", "canonicalize.rs"))
+    lits = set(re.findall(r'"([^"\\\n]{1,2})"', src)) | set(re.findall(r"'([^'\\\n])'", src))
+    return sorted(x for x in lits if x in d.forms and "infix" in d.forms[x])
+
+
+def sweep_rows(rng, d, tier):
+    """x OP y REF z and x REF y OP z for infix operators OP against a ladder of reference operators: a contextual
+    priority that disagrees with the dictionary shows as a misnested row (quick: the operators the parser source names
+    plus a seeded sample; thorough: every infix operator)"""
+    ops = special_cased_ops(d)
+    rest = [o for o in d.infix_ops if o not in ops]
+    if tier == "quick":
+        rng.shuffle(rest)
+        rest = rest[:60]
+    ops = ops + rest
+    out = []
+    for op in ops:
+        refs = LADDER if (tier != "quick" or op in ops[:40]) else rng.sample(LADDER, 2)
+        for ref in refs:
+            if ref == op:
+                continue
+            a, b, c = (mi(x) for x in rng.sample(PLAIN_IDENTS, 3))
+            out.append(T("math", [row(a, mo(op), b, mo(ref), c)]))
+            out.append(T("math", [row(a, mo(ref), b, mo(op), c)]))
+    return out
+
+
 def generate(res):
     entries, sets = gen_tables(res)
     seed = res.seed if res else 1
@@ -627,7 +660,7 @@ def generate(res):
     rng = random.Random(seed * 7919 + 3)
     d = Dict(entries)
     n_mixed, n_plain = (250, 250) if tier == "quick" else (2500, 2500)
-    mixed = cases(rng, n_mixed, [t for t, _ in entries])
+    mixed = cases(rng, n_mixed, [t for t, _ in entries]) + sweep_rows(rng, d, tier)
     plain = plain_rows(rng, n_plain, d)
     trees = mixed + [T("math", [row(*r)]) for r, _, _ in plain]
     obs = observe(trees)
